@@ -1,19 +1,21 @@
 """C06 — work in the shared queue is not starved by local work (DESIGN.md 4, C06)."""
+import os, sys
+sys.path.insert(0, os.path.dirname(os.path.abspath(__file__)))
+import _queue as Q
+
 CONFIG = dict(
-    id="C06",
-    level="proof",
-    shims=["crossbeam-skiplist", "st3", "crossbeam-deque", "rand"],
-    inject=[("harness/Q/ordered.rs", "core/src/common/ordered_work_steal.rs", "kani")],
-    kani=[
-        dict(name="q_ordered_tick_contract"),
-        dict(name="q_ordered_pop_consultation_order"),
-        dict(name="q_ordered_pop_local_contract", bounded="<= 2 priorities x <= 2 items"),
-        dict(name="q_ordered_shared_push_pop", bounded="<= 2 priorities x <= 2 items"),
-        dict(name="q_ordered_idle_pop_finds_work_start0", bounded="sibling: <= 2 priorities x <= 2 items", timeout=1200),
-        dict(name="q_ordered_idle_pop_finds_work_start1", bounded="sibling: <= 2 priorities x <= 2 items", timeout=1200),
-        dict(name="q_ordered_local_push", bounded="<= 2 priorities x <= 2 items, capacity 2", timeout=1200),
+    id="C06", level="proof", shims=Q.SHIMS, inject=Q.INJECT,
+    kani=[Q.U[k] for k in ("o_tick", "o_order", "o_idle0", "o_idle1", "p_tick", "p_order", "p_idle0", "p_idle1")],
+    verus=[dict(name="tick_fairness_lemma", preamble="specs/C06/tick_lemma.vpre.rs", min_verified=5)],
+    functions=Q.FUNCS, assumptions=Q.ASSUME + [
+        "the Verus lemma is over the sequence c -> (c + 1) mod 2^32, which the two tick units prove to be what the real tick() computes",
     ],
-    functions=[], assumptions=[], bounds="",
-    manifest=dict(text="", note="", technique=""),
-    trusted=["Kani 0.68 / CBMC 6.11", "feature `log` off"],
+    bounds="tick and consultation order: every u32 counter value, loop-free (unbounded); fairness lemma: Verus, unbounded; idle pop (steal): " + Q.B,
+    manifest=dict(
+        text="Proof for the 61-pop bound: Kani proves on the real tick() of both local-queue flavours, for every counter value, that it returns (c+1) mod 2^32 and leaves the counter there; Verus proves for that sequence and every start value that any 61 consecutive ticks contain a multiple of 61 (also across the wrap); Kani proves on the real pop(), for every tick value, that the shared queue is consulted first exactly on those ticks and its item is served when it holds one, the local queue being untouched (callees represented by their contracts, each proved on the real code by its own unit). Bounded stand-in for the second sentence: from every state of a bounded configuration (two local queues of capacity 2, <= 2 priorities x <= 2 items, any items/priorities, both victim orders, the idle queue's counter anywhere between its content and the capacity) an idle local queue's pop returns work whenever a sibling or the shared queue holds some. Tests push a few items and pop them all; none keeps a local queue busy for 61 pops or lets a sibling steal before the idle queue looks.",
+        note="Sequential only. Trusted: queue dependency shims (contracts written as code), stubs = callee contracts proved separately, struct-literal states. The steal units are bounded and listed as such in the evidence.",
+        technique="contract-based deductive verification: Kani function contracts on the real tick()/pop() (modular, callee contracts as stubs) + Verus lemma over the tick sequence; bounded Kani units for the steal path",
+    ),
+    trusted=Q.TRUSTED + ["Verus 0.2026.09.13 / Z3"],
 )
+native_replay = Q.native_replay_q
